@@ -734,9 +734,12 @@ class C13(SeqCheck):
                   "duplicate static addresses are outside the property; IPv4 only")
     rule = ("router histories: 5-45 (sometimes 270) AddNet calls mixing automatic and distinct static addresses (inside the automatic range, at "
             ".254, beyond the subnet) on /24, /25, /28 and /16 subnets; host histories: hosts with 1-3 IPs, 10-60 binds (specific, wildcard, "
-            "loopback, foreign IP; ports 0, 80, 81, 4999-6000), closes and lookups, sometimes with the whole ephemeral range filled first; "
+            "loopback, foreign IP; ports 0, 80, 81, 4999-6000), closes and lookups, sometimes with the whole ephemeral range filled first; every "
+            "lookup of one of the host's own IPs is also made with a probe datagram sent by a second host through the running router (inside a "
+            "testing/synctest bubble: quiescence = delivered) which must arrive at exactly the socket the model names; a refused bind is repeated "
+            "once with the same address value and must be refused again; bursts bind - probe - close - bind again - probe on one address; "
             "non-trivial = at least 2 successful and 1 refused operation; distinct = distinct (config, operations)")
-    trusted = ["overlay file harness/overlay/vnet/verif_export.go (VerifFindSock accessor)"]
+    trusted = ["overlay file harness/overlay/vnet/verif_export.go (VerifFindSock and VerifPending accessors)", "testing/synctest (quiescence after a probe)"]
     assumptions = ["single-threaded use of one Net/Router", "IPv4"]
 
     def is_nontrivial(self, conf, ops, obs):
